@@ -45,6 +45,7 @@ type vConn struct {
 	writeErr   error // error returned by failing writes (default vConnErr)
 	failReads  bool
 	inbound    [][]byte // packets Read returns before it fails / blocks
+	closeErr   error    // what Close returns (a failing DTLS / ICE teardown)
 	readDL     int
 	writeDL    int
 }
@@ -77,7 +78,7 @@ func (c *vConn) Write(b []byte) (int, error) {
 	return len(b), nil
 }
 
-func (c *vConn) Close() error                     { c.closes++; return nil }
+func (c *vConn) Close() error                     { c.closes++; return c.closeErr }
 func (c *vConn) LocalAddr() net.Addr              { return vAddr{} }
 func (c *vConn) RemoteAddr() net.Addr             { return vAddr{} }
 func (c *vConn) SetDeadline(time.Time) error      { return nil }
